@@ -131,7 +131,7 @@ def gen_case(rng, feats):
     checks = []
     before = g.observe()
     for round_ in range(rng.choice([4, 6, 9])):
-        mode = rng.choice(["auto", "auto", "session", "session", "reopen"])
+        mode = rng.choice(["auto", "auto", "session", "session", "reopen", "overlap-ddl"])
         cond = None
         if mode == "auto":
             for _ in range(rng.choice([1, 2, 3])):
@@ -140,6 +140,40 @@ def gen_case(rng, feats):
                 h.x(sql, coq, sorted_=srt)
                 g.live = view         # if the statement fails on both sides nothing changed there either; the model decides
                 g.sync_needed = True
+        elif mode == "overlap-ddl":
+            # an older, unrelated transaction stays open while DDL runs and commits in another one
+            ka = 300 + round_
+            h.begin(ka)
+            if g.live and rng.random() < 0.5:
+                t0 = g.live[rng.choice(sorted(g.live))]
+                q = select_all(t0)
+                h.q(ka, q.sql(), q.coq(), sorted_=True)
+            name = rng.choice(NAMES)
+            view = dict(g.live)
+            if name in view and rng.random() < 0.6:
+                t = view[name]
+                if len(t.cols) > 1:
+                    i = rng.randrange(1, len(t.cols))
+                    g.next_ix = getattr(g, "next_ix", 0) + 1
+                    h.x("CREATE UNIQUE INDEX ix%d ON %s(%s)" % (g.next_ix, t.name, t.cols[i][0]), "SCreateUnique %d [%d%%nat]" % (t.tid, i))
+            else:
+                if name in view:
+                    t_old = view.pop(name)
+                    h.x("DROP TABLE %s" % name, "SDrop %d" % t_old.tid)
+                t = g.new_shape(name)
+                view[name] = t
+                g.ever[name] = t
+                h.x(t.create_sql(), t.create_coq())
+            g.live = view
+            t = g.live[name]
+            rows = [g.row(t)]
+            h.x(G.insert_sql(t, rows), G.insert_coq(t, rows), sorted_=True)
+            if rng.random() < 0.5:
+                h.commit(ka)
+            else:
+                h.rollback(ka, drop=rng.random() < 0.3)
+            rows = [g.row(t)]
+            h.x(G.insert_sql(t, rows), G.insert_coq(t, rows), sorted_=True)
         elif mode == "session":
             k = round_ + 1
             view = dict(g.live)
